@@ -36,10 +36,25 @@ pub struct Case {
 pub struct C12;
 
 struct Tol {
-    d2: f64,
+    /// unit roundoff of the element type times a safety factor
+    eps_k: f64,
+    s: f64,
+    p: f64,
     sum: f64,
     mean: f64,
     dist_rel: f64,
+}
+
+impl Tol {
+    /// How much farther than the nearest centroid an attached centroid may be, given the two squared
+    /// distances. Condition-aware: the implementation subtracts coordinates of magnitude <= s whose stored
+    /// values (centroids are rounded means) carry an absolute error ~eps*s, so a squared distance d2 carries
+    /// ~eps*(s*sqrt(d2) + d2) — NOT eps*s^2, which would hide cancellation bugs on data far from the origin.
+    fn d2(&self, mine: f64, best: f64) -> f64 {
+        let m = mine.max(best);
+        let merge = 2e-10; // BBD leaf-merge radius, see below
+        self.eps_k * self.p * (self.s * m.sqrt() + m) + 4.0 * merge * (m.sqrt() + merge) * self.p + self.eps_k * self.eps_k * self.s * self.s
+    }
 }
 
 fn scale_of(data: &[Vec<f64>], cents: &[Vec<f64>]) -> f64 {
@@ -55,10 +70,11 @@ fn scale_of(data: &[Vec<f64>], cents: &[Vec<f64>]) -> f64 {
 }
 
 fn tol_for(f32m: bool, s: f64, n: usize, p: usize) -> Tol {
-    let (e_d2, e_sum, e_mean, e_dist) = if f32m {
-        (2e-4, 2e-4, 1e-4, 5e-3)
+    // (safety factor x unit roundoff, sums, means, distortion)
+    let (eps_k, e_sum, e_mean, e_dist) = if f32m {
+        (4096.0 * f32::EPSILON as f64, 2e-4, 1e-4, 5e-3)
     } else {
-        (1e-9, 1e-9, 1e-9, 1e-6)
+        (4096.0 * f64::EPSILON, 1e-9, 1e-9, 1e-6)
     };
     // The BBD tree merges the points of a box whose half-width is below an ABSOLUTE 1e-10 into one leaf and
     // represents them by its first point (a design approximation inherited by the library). Two distinct
@@ -67,7 +83,9 @@ fn tol_for(f32m: bool, s: f64, n: usize, p: usize) -> Tol {
     // carries that absolute term.
     let merge = 2e-10;
     Tol {
-        d2: e_d2 * s * s * p as f64 + 4.0 * merge * s * p as f64,
+        eps_k,
+        s,
+        p: p as f64,
         sum: e_sum * s * n as f64 + 2.0 * merge * n as f64,
         mean: e_mean * s + 2.0 * merge,
         dist_rel: e_dist,
@@ -130,15 +148,16 @@ fn judge_step(
         }
         ref_dist += best;
         let excess = mine - best;
-        if s > 0.0 {
-            rep.max(if f32m { "assign_excess_rel_f32" } else { "assign_excess_rel_f64" }, excess / (s * s * p as f64));
+        let allowed = tol.d2(mine, best);
+        if allowed > 0.0 {
+            rep.max(if f32m { "assign_excess_over_allowed_f32" } else { "assign_excess_over_allowed_f64" }, excess / allowed);
         }
-        if excess > tol.d2 {
+        if excess > allowed {
             return Err((
                 "not-nearest",
                 format!(
                     "row {} {:?} attached to centroid {} at squared distance {:e} but centroid {} is at {:e} (excess {:e} > tol {:e})",
-                    i, data[i], y[i], mine, bj, best, excess, tol.d2
+                    i, data[i], y[i], mine, bj, best, excess, allowed
                 ),
             ));
         }
@@ -168,9 +187,12 @@ fn judge_step(
         }
     }
     let derr = (distortion - ref_dist).abs();
-    let dden = ref_dist.abs().max(tol.d2 * n as f64).max(f64::MIN_POSITIVE);
-    rep.max(if f32m { "distortion_err_rel_f32" } else { "distortion_err_rel_f64" }, derr / dden);
-    if !(derr <= tol.dist_rel * dden) {
+    let dden = ref_dist.abs().max(tol.d2(ref_dist / n as f64, 0.0) * n as f64).max(f64::MIN_POSITIVE);
+    // the tree computes the distortion from node sums (count * |mean - c|^2 + stored cost): for data far from
+    // the origin the means carry an absolute error ~eps*s, i.e. sum_i 2*sqrt(d2_i)*eps*s <= 2*eps*s*sqrt(n*dist)
+    let dallow = tol.dist_rel * dden + 4.0 * tol.eps_k * tol.s * (n as f64 * ref_dist.abs()).sqrt();
+    rep.max(if f32m { "distortion_err_over_allowed_f32" } else { "distortion_err_over_allowed_f64" }, derr / dallow.max(f64::MIN_POSITIVE));
+    if !(derr <= dallow) {
         return Err((
             "distortion-mismatch",
             format!("reported distortion {:e}, exhaustive search gives {:e} (rel err {:e})", distortion, ref_dist, derr / dden),
@@ -385,10 +407,11 @@ impl C12 {
                                         }
                                         let mine = d2(&q[i], &cents[*l as usize]);
                                         let best = cents.iter().map(|c| d2(&q[i], c)).fold(f64::INFINITY, f64::min);
-                                        if s2 > 0.0 {
-                                            rep.max(if case.f32m { "predict_excess_rel_f32" } else { "predict_excess_rel_f64" }, (mine - best) / (s2 * s2 * p as f64));
+                                        let allowed = tol2.d2(mine, best);
+                                        if allowed > 0.0 {
+                                            rep.max(if case.f32m { "predict_excess_over_allowed_f32" } else { "predict_excess_over_allowed_f64" }, (mine - best) / allowed);
                                         }
-                                        if mine - best > tol2.d2 {
+                                        if mine - best > allowed {
                                             rep.fail(
                                                 "predict-not-nearest",
                                                 "predict",
@@ -515,7 +538,7 @@ fn gen_data(r: &mut Xo, n: usize, p: usize, f32m: bool) -> (Vec<Vec<f64>>, &'sta
     // sometimes give every column its own scale and offset (exactly representable factors keep lattices exact)
     if r.chance(0.25) {
         let cs: Vec<f64> = (0..p).map(|_| *r.pick(&[0.125, 1.0, 4.0, 64.0, 1024.0])).collect();
-        let co: Vec<f64> = (0..p).map(|_| *r.pick(&[0.0, 0.0, -512.0, 4096.0])).collect();
+        let co: Vec<f64> = (0..p).map(|_| if f32m { *r.pick(&[0.0, 0.0, -512.0, 4096.0]) } else { *r.pick(&[0.0, 0.0, -512.0, 4096.0, 1048576.0, 134217728.0]) }).collect();
         for row in data.iter_mut() {
             for (j, v) in row.iter_mut().enumerate() {
                 *v = *v * cs[j] + co[j];
@@ -647,12 +670,12 @@ impl Property for C12 {
     fn batches(&self, tier: Tier) -> Vec<Batch> {
         let q = tier == Tier::Quick;
         vec![
-            Batch { name: "fit-prng", count: if q { 30_000 } else { 4_000_000 }, simulated: true, exhaustive: false, note: "k-means++ draws served from the seeded PRNG tape; in-run probe judged at every Lloyd step" },
-            Batch { name: "fit-extreme", count: if q { 15_000 } else { 2_000_000 }, simulated: true, exhaustive: false, note: "extreme words (cut-off 0.0, 1-2^-53, first/last row) injected at random draw sites" },
-            Batch { name: "fit-forced-first", count: if q { 6_000 } else { 500_000 }, simulated: true, exhaustive: false, note: "first centroid forced onto a chosen (often duplicated / last) row" },
-            Batch { name: "fit-f32", count: if q { 6_000 } else { 500_000 }, simulated: true, exhaustive: false, note: "same as fit-prng in single precision (tolerances scaled)" },
-            Batch { name: "direct", count: if q { 20_000 } else { 1_000_000 }, simulated: false, exhaustive: false, note: "schedule-free: the assignment step called directly (hook) with coincident / far-outside / mid-point / k=1 centroid sets" },
-            Batch { name: "direct-f32", count: if q { 4_000 } else { 200_000 }, simulated: false, exhaustive: false, note: "schedule-free direct calls in single precision" },
+            Batch { name: "fit-prng", count: if q { 60_000 } else { 4_000_000 }, simulated: true, exhaustive: false, note: "k-means++ draws served from the seeded PRNG tape; in-run probe judged at every Lloyd step" },
+            Batch { name: "fit-extreme", count: if q { 40_000 } else { 2_000_000 }, simulated: true, exhaustive: false, note: "extreme words (cut-off 0.0, 1-2^-53, first/last row) injected at random draw sites" },
+            Batch { name: "fit-forced-first", count: if q { 12_000 } else { 500_000 }, simulated: true, exhaustive: false, note: "first centroid forced onto a chosen (often duplicated / last) row" },
+            Batch { name: "fit-f32", count: if q { 12_000 } else { 500_000 }, simulated: true, exhaustive: false, note: "same as fit-prng in single precision (tolerances scaled)" },
+            Batch { name: "direct", count: if q { 40_000 } else { 1_000_000 }, simulated: false, exhaustive: false, note: "schedule-free: the assignment step called directly (hook) with coincident / far-outside / mid-point / k=1 centroid sets" },
+            Batch { name: "direct-f32", count: if q { 8_000 } else { 200_000 }, simulated: false, exhaustive: false, note: "schedule-free direct calls in single precision" },
         ]
     }
     fn gen(&self, batch: &str, index: u64, seed: u64) -> Case {
@@ -821,7 +844,7 @@ impl Property for C12 {
         vec![
             "the only nondeterminism KMeans::fit consumes is rand::thread_rng() inside kmeans_plus_plus, served by the simulator through the patched rand 0.8.8 copy".into(),
             "the cfg(smartcore_verif) probe reports exactly the arguments and results of BBDTree::clustering at each Lloyd step (add-only hook, src/verif.rs)".into(),
-            "reference model: exhaustive nearest-centroid search in f64; tolerances (relative to data/centroid scale s): squared distance 1e-9*s^2*p, sums 1e-9*s*n, means 1e-9*s, distortion 1e-6 relative (f32: 2e-4, 2e-4, 1e-4, 5e-3) — at least 100x the measured worst case, which is reported under measured_maxima".into(),
+            "reference model: exhaustive nearest-centroid search in f64; tolerances (relative to data/centroid scale s): squared-distance excess 4096*eps*p*(s*sqrt(d2)+d2) (condition-aware, so data far from the origin are judged as strictly as centred data), sums 1e-9*s*n, means 1e-9*s, distortion 1e-6 relative (f32: 2e-4, 1e-4, 5e-3) — at least 100x the measured worst case, which is reported under measured_maxima".into(),
             "the BBD tree merges the points of a box of half-width < 1e-10 (absolute) into one leaf represented by its first point; every tolerance therefore carries an absolute term of a few 1e-10 per merged row (data are generated at scales >= 1e-2, where this is < 1e-7 relative); data at scales near 1e-10 would be clustered as if all rows coincided — an observation for the maintainers, outside the generated domain".into(),
             "sampling, not enumeration: a clean batch is evidence, not proof".into(),
         ]
